@@ -95,23 +95,29 @@ void compareViews(Ctx& ctx, const TreeView& got, const TreeView& expect, unsigne
     }
 }
 
-static bool arraysClose(const unsigned char* a, const unsigned char* b, size_t bytes, double tol, double& worst) {
-    const size_t n = bytes / sizeof(double);
+template <class T>
+static bool arraysCloseT(const unsigned char* a, const unsigned char* b, size_t bytes, double tol, double& worst) {
+    const size_t n = bytes / sizeof(T);
     double maxabs = 0;
-    for (size_t i = 0; i < n; ++i) { double e; std::memcpy(&e, b + i * sizeof(double), sizeof e); if (e == e && std::fabs(e) > maxabs) maxabs = std::fabs(e); }
+    for (size_t i = 0; i < n; ++i) { T e; std::memcpy(&e, b + i * sizeof(T), sizeof e); if (e == e && std::fabs(double(e)) > maxabs) maxabs = std::fabs(double(e)); }
     bool ok = true;
     for (size_t i = 0; i < n; ++i) {
-        double g, e;
-        std::memcpy(&g, a + i * sizeof(double), sizeof g);
-        std::memcpy(&e, b + i * sizeof(double), sizeof e);
+        T g, e;
+        std::memcpy(&g, a + i * sizeof(T), sizeof g);
+        std::memcpy(&e, b + i * sizeof(T), sizeof e);
         if (g != g || e != e) { if (std::memcmp(&g, &e, sizeof g) != 0) { ok = false; worst = 1e300; } continue; }
-        const double err = std::fabs(g - e);
+        const double err = std::fabs(double(g) - double(e));
         if (err > tol * maxabs + 1e-300) { ok = false; const double rel = maxabs > 0 ? err / maxabs : err; if (rel > worst) worst = rel; }
     }
     return ok;
 }
+static bool g_tolFloat = false;
+static bool arraysClose(const unsigned char* a, const unsigned char* b, size_t bytes, double tol, double& worst) {
+    return g_tolFloat ? arraysCloseT<float>(a, b, bytes, tol, worst) : arraysCloseT<double>(a, b, bytes, tol, worst);
+}
 
 void compareViewsTol(Ctx& ctx, const TreeView& got, const TreeView& expect, double tol, const std::string& cls, const std::string& what) {
+    g_tolFloat = ctx.isFloat;
     if (got.cells.size() != expect.cells.size() || got.leaves.size() != expect.leaves.size()) { ctx.addViolation(cls, "structure", what + ": different number of cells or leaves"); return; }
     for (size_t i = 0; i < got.cells.size(); ++i) {
         const CellRec& g = got.cells[i]; const CellRec& e = expect.cells[i];
@@ -125,7 +131,7 @@ void compareViewsTol(Ctx& ctx, const TreeView& got, const TreeView& expect, doub
         if (g.n != e.n || g.coord != e.coord || g.rhs.size() != e.rhs.size()) { ctx.addViolation(cls, "structure", what + ": leaf lists differ"); return; }
         for (size_t k = 0; k < g.rhs.size(); ++k) {
             double worst = 0;
-            if (g.rhs[k] && !arraysClose(g.rhs[k], e.rhs[k], size_t(g.n) * sizeof(double), tol, worst)) { ctx.addViolation(cls, "particle-rhs", what + ": result row " + std::to_string(k) + " of a leaf differs beyond rounding (relative error " + std::to_string(worst) + ")"); break; }
+            if (g.rhs[k] && !arraysClose(g.rhs[k], e.rhs[k], size_t(g.n) * (ctx.isFloat ? sizeof(float) : sizeof(double)), tol, worst)) { ctx.addViolation(cls, "particle-rhs", what + ": result row " + std::to_string(k) + " of a leaf differs beyond rounding (relative error " + std::to_string(worst) + ")"); break; }
         }
     }
 }
